@@ -11,7 +11,7 @@ git -C /repo worktree add -q --detach $WT HEAD || exit 2
 cd $WT
 # demo files
 for f in $(cd $S && find . -name '*_test.go'); do mkdir -p $(dirname $f); cp $S/$f $f; done
-demo=$(python3 -c "import json;print(json.load(open('$S/meta.json'))['demo_cmd'])" | sed "s#/tmp/wt_$id#$WT#g")
+demo=$(python3 -c "import json;print(json.load(open('$S/meta.json'))['demo_cmd'])" | sed -E "s#/tmp/wt2?_C[0-9]+#$WT#g")
 echo "demo: $demo" > $S/confirm.txt
 echo "repo HEAD: $(git -C /repo rev-parse --short HEAD)" >> $S/confirm.txt
 ( cd $WT && timeout 600 bash -c "$demo" ) > /tmp/confirm_$id.nopatch.log 2>&1; rc0=$?
@@ -23,6 +23,13 @@ echo "demo with patch: rc=$rc1" >> $S/confirm.txt
 # existing suite with patch, demo files removed
 find . -name 'zz_demo*' -delete
 timeout 1200 go test -vet=off -count=1 -timeout 15m ./... > /tmp/confirm_$id.suite.log 2>&1; rc2=$?
+# segment.TestFrameCodecFuzz is randomly flaky on the pinned tree (about 1 run in 10): if it is the only failure, repeat
+for try in 1 2 3; do
+  if [ $rc2 -ne 0 ] && [ "$(grep -c '^--- FAIL' /tmp/confirm_$id.suite.log)" = "1" ] && grep -q '^--- FAIL: TestFrameCodecFuzz' /tmp/confirm_$id.suite.log; then
+    echo "existing suite: only the known-flaky segment.TestFrameCodecFuzz failed, repeating" >> $S/confirm.txt
+    timeout 1200 go test -vet=off -count=1 -timeout 15m ./... > /tmp/confirm_$id.suite.log 2>&1; rc2=$?
+  fi
+done
 echo "existing suite with patch: rc=$rc2 ($(grep -c '^ok' /tmp/confirm_$id.suite.log) packages ok, $(grep -c '^FAIL' /tmp/confirm_$id.suite.log) FAIL lines)" >> $S/confirm.txt
 cd /; git -C /repo worktree remove --force $WT
 if [ $rc0 -eq 0 ] && [ $rc1 -ne 0 ] && [ $rc2 -eq 0 ]; then echo "CONFIRMED" >> $S/confirm.txt; else echo "NOT-CONFIRMED" >> $S/confirm.txt; fi
